@@ -5,19 +5,31 @@
 //! * `clean_cons`  — `wal.conservative_mode = true`  (own process: CONFIG is read once)
 //! * `clean_plain` — `wal.conservative_mode = false`
 //! * `codec`       — archive byte round trip of arbitrary `ScalarValue`s and archive file names
+//! * `witness`     — the fixed witnesses of the `_fails` theorems (cases 0–2, expected to fail the
+//!                   oracle with their class) and their positive counterparts (cases 3–5)
 //!
 //! One case of a `clean_*` stream: an initial archive directory (missing / present / a regular
 //! file / a dangling symlink; holding earlier archives, junk, squatting directories, dangling
 //! symlinks) and 1–3 steps, each of which adds log files to the shard's WAL directory and runs
-//! `WalCleaner::new(shard).cleanup_up_to(bound)`. After every step both directories are listed
-//! and `list_archive_info` / `recover_all` are called; that rendering is compared for equality
-//! with the model's. Every case uses its own shard number, so its own pair of directories.
+//! `WalCleaner::new(shard).cleanup_up_to(bound)` (mostly), `WalArchiver::archive_logs_up_to(bound)`
+//! or `WalArchiver::archive_log(id)` (the manual path of `wal_archive_manager archive`). After
+//! every step the call's result (Ok / Err counts), both directory listings, `list_archive_info`
+//! and `recover_all` are rendered; that line is compared for equality with the model's. Every
+//! case uses its own shard number, so its own pair of directories.
+//!
+//! Oracle (independent of the model, brute force over what was generated): only names below the
+//! bound disappear; a fault on an eligible log ⇒ nothing disappears; every deleted log's
+//! parseable entries are held by an archive right after the step and are a contiguous block of
+//! `recover_all` at the end of the case, as are the entries of archives that existed before;
+//! `recover_all` visits log ids in non-decreasing order; non-conservative cleanups leave the
+//! archive directory alone; the archiver never deletes. Finding classes: `noncanonical-log-name`,
+//! `archive-name-reuse`, `archive-order-wide-id` (predicates at the place they are assigned).
 //!
 //! The line parser is a parameter of the model: the op line carries, per log line, what
 //! `serde_json` (generic `Value`, not `WalEntry`) makes of it; whether `WalEntry`'s own
 //! deserialiser agrees on parseability is checked here (`parser-disagrees` otherwise).
 use snel_db::engine::core::{
-    EventId, WalArchive, WalArchiveBody, WalArchiveHeader, WalArchiveRecovery, WalCleaner, WalEntry,
+    EventId, WalArchive, WalArchiveBody, WalArchiveHeader, WalArchiveRecovery, WalArchiver, WalCleaner, WalEntry,
 };
 use snel_db::engine::types::ScalarValue;
 use snel_harness::enc::{hex, hexs};
@@ -585,12 +597,17 @@ enum GNode {
 #[derive(Clone, Debug)]
 struct GStep {
     files: Vec<GFile>,
+    /// 'C' = `WalCleaner::cleanup_up_to(arg)`, 'P' = `WalArchiver::archive_logs_up_to(arg)`,
+    /// 'M' = `WalArchiver::archive_log(arg)` (what `wal_archive_manager archive` calls)
+    op: char,
     bound: u64,
 }
 
 #[derive(Clone, Debug)]
 struct GCase {
     root: char, // d m f b
+    /// the shard's WAL directory does not exist (then no step adds files)
+    wal_missing: bool,
     nodes: Vec<(String, GNode)>,
     steps: Vec<GStep>,
 }
@@ -664,7 +681,17 @@ fn gen_case(r: &mut Rng, shard: usize) -> GCase {
             5 | 6 | 7 if !eligible_ids.is_empty() => r.pick(&eligible_ids).saturating_add(1),
             _ => eligible_ids.iter().copied().max().unwrap_or(0).saturating_add(1),
         };
-        steps.push(GStep { files, bound });
+        let op = match r.below(9) {
+            0 => 'M',
+            1 => 'P',
+            _ => 'C',
+        };
+        let bound = if op == 'M' {
+            if !eligible_ids.is_empty() && r.chance(4, 5) { *r.pick(&eligible_ids) } else { r.below(8) }
+        } else {
+            bound
+        };
+        steps.push(GStep { files, op, bound });
     }
     let root = match r.below(20) {
         0 => 'f',
@@ -715,7 +742,13 @@ fn gen_case(r: &mut Rng, shard: usize) -> GCase {
             nodes.push((name, node));
         }
     }
-    GCase { root, nodes, steps }
+    let wal_missing = r.chance(1, 40);
+    if wal_missing {
+        for st in steps.iter_mut() {
+            st.files.clear();
+        }
+    }
+    GCase { root, wal_missing, nodes, steps }
 }
 
 // ------------------------------------------------------------------ op line
@@ -756,6 +789,7 @@ fn op_line(conservative: bool, shard: usize, c: &GCase, steps_done: &[Vec<GFile>
                 }
             }
         }
+        t.push(st.op.to_string());
         t.push(st.bound.to_string());
     }
     t.join(" ")
@@ -788,7 +822,11 @@ fn setup(d: &Dirs, c: &GCase, shard: usize) {
             }
         }
     }
-    std::fs::create_dir_all(&d.wal).unwrap();
+    std::fs::create_dir_all(d.wal.parent().unwrap()).unwrap();
+    std::fs::create_dir_all(d.arch.parent().unwrap()).unwrap();
+    if !c.wal_missing {
+        std::fs::create_dir_all(&d.wal).unwrap();
+    }
     match c.root {
         'm' => {}
         'f' => std::fs::write(&d.arch, b"i am a file").unwrap(),
@@ -889,12 +927,46 @@ fn contains_block(hay: &[Ent], needle: &[Ent]) -> bool {
     hay.len() >= needle.len() && hay.windows(needle.len()).any(|w| w == needle)
 }
 
+/// A log as the WAL writer leaves it: one entry per given timestamp, payload `{"k": ts}`.
+fn plain_file(name: &str, tss: &[u64]) -> GFile {
+    let lines = tss
+        .iter()
+        .map(|ts| {
+            let e = Ent { ty: "order".into(), ctx: "c1".into(), ts: *ts, eid: 1000 + *ts, payload: vec![("k".into(), SV::Int(*ts as i64))] };
+            classify(serde_json::to_string(&real_of_ent(&e)).unwrap())
+        })
+        .collect();
+    GFile { name: name.to_string(), is_dir: false, lines, final_newline: true }
+}
+
+/// The witnesses of the `_fails` theorems of `Snel/Props/C19.lean`, replayed on the real code,
+/// followed by the positive counterparts (same shape, hypothesis of the `_partial` theorem met).
+fn witness_case(i: u64) -> GCase {
+    let step = |files: Vec<GFile>, bound: u64| GStep { files, op: 'C', bound };
+    let (root, steps) = match i {
+        // C19_delete_implies_archived_fails: two spellings of log id 1
+        0 => ('m', vec![step(vec![plain_file("wal-1.log", &[4]), plain_file("wal-00001.log", &[6])], 2)]),
+        // C19_reuse_loses_entries_fails: log id 0 twice with the same first / last timestamp
+        1 => ('m', vec![step(vec![plain_file("wal-00000.log", &[4, 6, 8])], 1), step(vec![plain_file("wal-00000.log", &[4, 8])], 1)]),
+        // C19_recover_order_fails: log ids 99999 and 100000
+        2 => ('m', vec![step(vec![plain_file("wal-99999.log", &[4]), plain_file("wal-100000.log", &[2])], 100_001)]),
+        // positive: canonical names only
+        3 => ('m', vec![step(vec![plain_file("wal-00000.log", &[4]), plain_file("wal-00001.log", &[6]), plain_file("wal-00002.log", &[7])], 2)]),
+        // positive: log id reused with another time range
+        4 => ('m', vec![step(vec![plain_file("wal-00000.log", &[4, 6])], 1), step(vec![plain_file("wal-00000.log", &[8, 10])], 1)]),
+        // positive: ids 9 and 10
+        _ => ('m', vec![step(vec![plain_file("wal-00010.log", &[2]), plain_file("wal-00009.log", &[4])], 11)]),
+    };
+    GCase { root, wal_missing: false, nodes: vec![], steps }
+}
+
 fn run_clean(a: &snel_harness::out::Args, conservative: bool) {
     let out = std::fs::canonicalize(&a.out).unwrap_or_else(|_| {
         std::fs::create_dir_all(&a.out).unwrap();
         std::fs::canonicalize(&a.out).unwrap()
     });
-    let stream_name = if conservative { "clean_cons" } else { "clean_plain" };
+    let witness = a.stream == "witness";
+    let stream_name = if witness { "witness" } else if conservative { "clean_cons" } else { "clean_plain" };
     let base = out.join(format!("fs-{stream_name}"));
     let _ = std::fs::remove_dir_all(&base);
     std::fs::create_dir_all(&base).unwrap();
@@ -929,7 +1001,7 @@ fn run_clean(a: &snel_harness::out::Args, conservative: bool) {
         }
         let mut r = Rng::for_case(a.seed, stream_name, i);
         let shard = i as usize;
-        let c = gen_case(&mut r, shard);
+        let c = if witness { witness_case(i % 6) } else { gen_case(&mut r, shard) };
         let d = Dirs {
             wal: base.join("wal").join(format!("shard-{shard}")),
             arch: base.join("arch").join(format!("shard-{shard}")),
@@ -942,7 +1014,7 @@ fn run_clean(a: &snel_harness::out::Args, conservative: bool) {
         // oracle bookkeeping
         let mut on_disk: BTreeMap<String, GFile> = BTreeMap::new();
         let mut deleted_logs: Vec<(usize, GFile)> = vec![]; // (step, file)
-        let mut p1_fail: Option<(String, &'static str)> = None;
+        let mut fails: Vec<(String, String)> = vec![];
         let mut archive_names_by_step: Vec<BTreeSet<String>> = vec![];
         for (si, st) in c.steps.iter().enumerate() {
             let mut added = vec![];
@@ -974,21 +1046,61 @@ fn run_clean(a: &snel_harness::out::Args, conservative: bool) {
             let before: Vec<String> = list_names(&d.wal);
             let arch_before = if conservative { None } else { Some(render_arch_only(&d)) };
             // ---- the code under test
-            WalCleaner::new(shard).cleanup_up_to(st.bound);
+            let res = match st.op {
+                'M' => if WalArchiver::new(shard).archive_log(st.bound).is_ok() { "ok".to_string() } else { "err".to_string() },
+                'P' => {
+                    let rs = WalArchiver::new(shard).archive_logs_up_to(st.bound);
+                    format!("{}:{}", rs.iter().filter(|x| x.is_ok()).count(), rs.iter().filter(|x| x.is_err()).count())
+                }
+                _ => {
+                    WalCleaner::new(shard).cleanup_up_to(st.bound);
+                    "-".to_string()
+                }
+            };
             // ----
             let o = observe(&d, shard);
-            imp.push(render_obs(&o));
+            imp.push(format!("res={res} {}", render_obs(&o)));
+            s.tally(&format!("op_{}", st.op));
 
             // ---- oracle, per step
-            let eligible: Vec<GFile> = before.iter().filter_map(|n| on_disk.get(n)).cloned().filter(|f| log_id_spec(&f.name).is_some_and(|id| id < st.bound)).collect();
+            let eligible: Vec<GFile> = before
+                .iter()
+                .filter_map(|n| on_disk.get(n))
+                .cloned()
+                .filter(|f| log_id_spec(&f.name).is_some_and(|id| if st.op == 'M' { id == st.bound && canonical(id) == f.name } else { id < st.bound }))
+                .collect();
             let deleted: Vec<String> = before.iter().filter(|n| !o.wal.contains(n)).cloned().collect();
-            archive_names_by_step.push(
-                eligible.iter().filter(|f| f.readable()).map(|f| arch_name_spec(log_id_spec(&f.name).unwrap(), &f.entries())).collect(),
-            );
+            // names an archive may have been written under in this step: per eligible id, the
+            // file `archive_log` reads is the one under the canonical name
+            archive_names_by_step.push(if conservative || st.op != 'C' {
+                eligible
+                    .iter()
+                    .filter_map(|f| log_id_spec(&f.name))
+                    .filter_map(|id| on_disk.get(&canonical(id)).filter(|cf| cf.readable()).map(|cf| arch_name_spec(id, &cf.entries())))
+                    .collect()
+            } else {
+                BTreeSet::new()
+            });
+            if st.op != 'C' {
+                if !deleted.is_empty() {
+                    fails.push((format!("step {si}: the archiver deleted {deleted:?}"), "-".to_string()));
+                }
+                if res == "ok" {
+                    let want = on_disk.get(&canonical(st.bound)).map(|f| f.entries()).unwrap_or_default();
+                    let found = list_names(&d.arch)
+                        .iter()
+                        .filter_map(|n| WalArchive::read_from_file(&d.arch.join(n)).ok())
+                        .any(|a| a.header.log_id == st.bound && a.body.entries.iter().map(ent_of_real).collect::<Vec<_>>() == want);
+                    if !found {
+                        fails.push((format!("step {si}: archive_log({}) returned Ok but no archive holds the log's entries", st.bound), "-".to_string()));
+                    }
+                }
+                continue;
+            }
             // P2: only eligible names disappear
             for n in &deleted {
                 if !eligible.iter().any(|f| f.name == *n) {
-                    p1_fail.get_or_insert((format!("step {si}: {n} deleted although not below the bound {}", st.bound), "-"));
+                    fails.push((format!("step {si}: {n} deleted although not below the bound {}", st.bound), "-".to_string()));
                 }
             }
             if conservative {
@@ -1002,7 +1114,7 @@ fn run_clean(a: &snel_harness::out::Args, conservative: bool) {
                         && (c.root == 'f' || c.root == 'b' || !f.readable() || squat(&arch_name_spec(id, &f.entries())))
                 });
                 if fault && !deleted.is_empty() {
-                    p1_fail.get_or_insert((format!("step {si}: an eligible log could not be archived, yet {deleted:?} were deleted"), "-"));
+                    fails.push((format!("step {si}: an eligible log could not be archived, yet {deleted:?} were deleted"), "-".to_string()));
                 }
                 if fault {
                     s.tally("step_with_archive_fault");
@@ -1018,11 +1130,11 @@ fn run_clean(a: &snel_harness::out::Args, conservative: bool) {
                     let want = f.entries();
                     if !archives_now.iter().any(|a| *a == want) {
                         let class = if canonical(log_id_spec(n).unwrap_or(0)) != *n { "noncanonical-log-name" } else { "-" };
-                        p1_fail.get_or_insert((format!("step {si}: {n} deleted but no archive holds its {} entries", want.len()), class));
+                        fails.push((format!("step {si}: {n} deleted but no archive holds its {} entries", want.len()), class.to_string()));
                     }
                 }
             } else if Some(render_arch_only(&d)) != arch_before {
-                p1_fail.get_or_insert((format!("step {si}: archive directory changed in non-conservative mode"), "-"));
+                fails.push((format!("step {si}: archive directory changed in non-conservative mode"), "-".to_string()));
             }
             for n in &deleted {
                 deleted_logs.push((si, on_disk[n].clone()));
@@ -1036,10 +1148,9 @@ fn run_clean(a: &snel_harness::out::Args, conservative: bool) {
         }
         // ---- end-of-case oracle: everything archived-and-deleted is recoverable, in log order
         let last = observe(&d, shard);
-        let mut verdict: Option<(String, String)> = p1_fail.map(|(d, c)| (d, c.to_string()));
-        if conservative {
+        {
             if let Some(rec) = &last.rec {
-                for (si, f) in &deleted_logs {
+                for (si, f) in deleted_logs.iter().filter(|_| conservative) {
                     let want = f.entries();
                     if !contains_block(rec, &want) {
                         let id = log_id_spec(&f.name).unwrap_or(0);
@@ -1051,7 +1162,7 @@ fn run_clean(a: &snel_harness::out::Args, conservative: bool) {
                         } else {
                             "-"
                         };
-                        verdict.get_or_insert((format!("log {} deleted in step {si}: its {} entries are not in recover_all", f.name, want.len()), class.to_string()));
+                        fails.push((format!("log {} deleted in step {si}: its {} entries are not in recover_all", f.name, want.len()), class.to_string()));
                     }
                 }
                 // earlier archives (standard name) must survive as well
@@ -1061,7 +1172,7 @@ fn run_clean(a: &snel_harness::out::Args, conservative: bool) {
                             let want: Vec<Ent> = entries.iter().map(ent_reser).collect();
                             if !contains_block(rec, &want) {
                                 let class = if archive_names_by_step.iter().any(|set| set.contains(name)) { "archive-name-reuse" } else { "-" };
-                                verdict.get_or_insert((format!("earlier archive {name}: its {} entries are no longer recoverable", want.len()), class.to_string()));
+                                fails.push((format!("earlier archive {name}: its {} entries are no longer recoverable", want.len()), class.to_string()));
                             }
                         }
                     }
@@ -1070,16 +1181,20 @@ fn run_clean(a: &snel_harness::out::Args, conservative: bool) {
                 let standard = last.info.iter().all(|(n, _, id, st, en, _)| *n == format!("wal-{:05}-{}-{}.wal.zst", id, st, en));
                 if standard {
                     let idseq: Vec<u64> = last.info.iter().map(|x| x.2).collect();
-                    if idseq.windows(2).any(|w| w[0] > w[1]) {
-                        let class = if idseq.iter().any(|id| *id >= 100_000) { "archive-order-wide-id" } else { "-" };
-                        verdict.get_or_insert((format!("recover_all visits log ids out of order: {idseq:?}"), class.to_string()));
+                    // ids the five-digit padding covers must come out in order whatever else is there
+                    let narrow: Vec<u64> = idseq.iter().copied().filter(|id| *id < 100_000).collect();
+                    if narrow.windows(2).any(|w| w[0] > w[1]) {
+                        fails.push((format!("recover_all visits log ids below 100000 out of order: {idseq:?}"), "-".to_string()));
+                    } else if idseq.windows(2).any(|w| w[0] > w[1]) {
+                        // class predicate: the only inversions involve an id of six or more digits
+                        fails.push((format!("recover_all visits log ids out of order: {idseq:?}"), "archive-order-wide-id".to_string()));
                     }
                     s.tally("order_checked");
                 } else {
                     s.tally("order_not_checked_foreign_names");
                 }
-            } else if !deleted_logs.is_empty() {
-                verdict.get_or_insert(("recover_all failed although logs were deleted".into(), "-".into()));
+            } else if conservative && !deleted_logs.is_empty() {
+                fails.push(("recover_all failed although logs were deleted".into(), "-".into()));
             }
         }
         let op = op_line(conservative, shard, &c, &steps_done);
@@ -1089,6 +1204,9 @@ fn run_clean(a: &snel_harness::out::Args, conservative: bool) {
         };
         // distribution
         s.tally(&format!("root_{}", c.root));
+        if c.wal_missing {
+            s.tally("wal_dir_missing");
+        }
         s.tally(&format!("steps_{}", c.steps.len()));
         for (_, n) in &c.nodes {
             s.tally(match n {
@@ -1129,11 +1247,16 @@ fn run_clean(a: &snel_harness::out::Args, conservative: bool) {
         }
         let nontrivial = !deleted_logs.is_empty() || last.info.len() > 0;
         s.case(&op, &imp_line, nontrivial);
-        match verdict {
-            None => s.oracle_ok(),
-            Some((detail, class)) => {
+        if fails.is_empty() {
+            s.oracle_ok();
+        }
+        // every failed check is reported, so a classified failure never hides an unclassified one
+        // (one line per distinct class and case)
+        let mut seen = BTreeSet::new();
+        for (detail, class) in &fails {
+            if seen.insert(class.clone()) {
                 s.tally(&format!("oracle_fail_{class}"));
-                s.oracle_fail(i, &class, &format!("{detail} | --seed {} --only {i}", a.seed));
+                s.oracle_fail(i, class, &format!("{detail} | --seed {} --only {i}", a.seed));
             }
         }
         // tidy
@@ -1239,7 +1362,7 @@ fn run_codec(a: &snel_harness::out::Args) {
 fn main() {
     let a = parse_args();
     match a.stream.as_str() {
-        "clean_cons" => run_clean(&a, true),
+        "clean_cons" | "witness" => run_clean(&a, true),
         "clean_plain" => run_clean(&a, false),
         "codec" => run_codec(&a),
         other => {
